@@ -2,8 +2,11 @@
 # tools/matrix.sh : runs every quick check against every seeded change, in an isolated scratch copy
 # (/tmp/mx: copy of /repo and of /verif/mc, own target dir), and writes /verif/seeded/matrix.json.
 # Does not touch /repo or /verif/mc/target. Removes the scratch copy at the end.
+# usage: matrix.sh [shard nshards]  - with shards, each writes /verif/seeded/matrix.<shard>.json; merge with
+#        tools/matrix_merge.py once all have finished.
 set -u
-MX=/tmp/mx
+SH=${1:-0}; NSH=${2:-1}
+MX=/tmp/mx$SH
 rm -rf $MX; mkdir -p $MX/verif
 rsync -a --exclude target --exclude .git /repo/ $MX/repo/
 rsync -a --exclude target /verif/mc/ $MX/verif/mc/
@@ -12,10 +15,13 @@ sed -i "s#path = \"/repo\"#path = \"$MX/repo\"#" $MX/verif/mc/Cargo.toml
 export VERIF_HOME=$MX/verif VERIF_REPO=$MX/repo CARGO_TARGET_DIR=$MX/target CARGO_NET_OFFLINE=true
 cd $MX/repo && git init -q . && git add -A >/dev/null && git -c user.email=x@x -c user.name=x commit -qm base
 OUT=/verif/seeded/matrix.json
+[ $NSH -gt 1 ] && OUT=/verif/seeded/matrix.$SH.json
 echo "{" > $OUT.tmp
 first=1
 CHECKS="C01 C02 C03 C04 C05 C06 C07 C08 C09 C10 C11 C12 C13 C14 C15 C16 C17 C18 C19 C20"
+n=0
 for d in /verif/seeded/C*/; do
+  n=$((n+1)); [ $((n % NSH)) -eq $SH ] || continue
   s=$(basename $d)
   cd $MX/repo && git checkout -q -- . && git apply $d/patch.diff || { echo "no apply $s"; continue; }
   (cd $MX/verif/mc && cargo build --release --offline -q 2>/dev/null) || { echo "build failed $s"; continue; }
